@@ -30,7 +30,8 @@ GRAPHS = {
 }
 
 
-def load_both(nodes, edges, coords, d, tag):
+def load_both(nodes, edges, coords, d, tag, bulk=False):
+    """bulk: the SQLite map is filled through its bulk interface (add_nodes / add_edges) instead of node by node."""
     from leuvenmapmatching.map.inmem import InMemMap
     from leuvenmapmatching.map.sqlite import SqliteMap
     a = InMemMap("mem", use_latlon=False)
@@ -39,10 +40,14 @@ def load_both(nodes, edges, coords, d, tag):
     for x, y in edges:
         a.add_edge(x, y)
     b = SqliteMap(f"sql{tag}", use_latlon=False, dir=d)
-    for n in nodes:
-        b.add_node(n, coords[n])
-    for x, y in edges:
-        b.add_edge(x, y)
+    if bulk:
+        b.add_nodes([(n, coords[n]) for n in nodes])
+        b.add_edges([(x, y) for x, y in edges])
+    else:
+        for n in nodes:
+            b.add_node(n, coords[n])
+        for x, y in edges:
+            b.add_edge(x, y)
     return a, b
 
 
@@ -56,13 +61,15 @@ def near_border(v, lo, hi):
 
 def run_instance(inst):
     kind, gname = inst[:2]
+    bulk = kind.endswith('_bulk')
+    kind = kind[:-5] if bulk else kind
     nodes, edges = GRAPHS[gname]
     shims.install()
     sqlcommon.install()
     d = sqlcommon.scratch_dir()
     cnt = [0]
     with_matcher = kind == 'matcher'
-    name = f"{kind} {gname}"
+    name = f"{kind} {gname}" + (" bulk-loaded" if bulk else "")
     findings = load_findings(PID)
 
     def scenario():
@@ -76,7 +83,7 @@ def run_instance(inst):
         else:
             coords = {n: (eng.fresh(f"y{n}"), eng.fresh(f"x{n}")) for n in nodes}
         with contextlib.redirect_stdout(io.StringIO()):
-            a, b = load_both(nodes, edges, coords, d, cnt[0])
+            a, b = load_both(nodes, edges, coords, d, cnt[0], bulk)
             v = dict(coords=coords, a=a, b=b)
             if with_matcher:
                 path = [(0.25, eng.fresh("ox0")), (0.5, eng.fresh("ox1"))]
@@ -152,13 +159,13 @@ def run_instance(inst):
         cc = {n: tuple(cv(c) for c in p) for n, p in v['coords'].items()}
         box = tuple(cv(x) for x in v['box']) if 'box' in v else None
         cpath = [tuple(cv(c) for c in p) for p in v['path']] if 'path' in v else None
-        bad = concrete_compare(gname, cc, box, cpath, inst[2] if with_matcher else None)
+        bad = concrete_compare(gname, cc, box, cpath, inst[2] if with_matcher else None, bulk)
         if bad:
             known = None
             for f in findings:
                 if f.get('predicate') == 'sqlite_bb_uses_minX_only' and bad.startswith('bb()'):
                     known = f"{f['id']}: {f['what'][:160]}"
-            return dict(desc=bad, known=known, graph=gname, coords={str(k): list(c) for k, c in cc.items()}, box=box, path=cpath, fam=inst[2] if with_matcher else None, kind='c12')
+            return dict(desc=bad, known=known, graph=gname, coords={str(k): list(c) for k, c in cc.items()}, box=box, path=cpath, fam=inst[2] if with_matcher else None, kind='c12', bulk=bulk)
         return None
 
     try:
@@ -171,7 +178,7 @@ def run_instance(inst):
     return out
 
 
-def concrete_compare(gname, cc, box, cpath, fam):
+def concrete_compare(gname, cc, box, cpath, fam, bulk=False):
     """Both backends on doubles with the REAL sqlite3.  Returns None or a description."""
     nodes, edges = GRAPHS[gname]
     d = sqlcommon.scratch_dir()
@@ -180,7 +187,7 @@ def concrete_compare(gname, cc, box, cpath, fam):
             sqlcommon.uninstall()
             try:
                 with contextlib.redirect_stdout(io.StringIO()):
-                    a, b = load_both(nodes, edges, cc, d, 'replay')
+                    a, b = load_both(nodes, edges, cc, d, 'replay', bulk)
                     if a.size() != b.size() or sorted(a.labels()) != sorted(b.labels()):
                         return f"size/labels differ: {a.size()},{sorted(a.labels())} vs {b.size()},{sorted(b.labels())}"
                     for n in nodes:
@@ -222,9 +229,9 @@ def concrete_compare(gname, cc, box, cpath, fam):
 
 
 def instances(tier):
-    out = [('data', 'g2'), ('data', 'g3'), ('data', 'g3_deadend'), ('box_exact', 'g3'), ('box_exact', 'g4'), ('matcher', 'g2', 'simple'), ('matcher', 'g3', 'dist'), ('matcher', 'g4', 'simple')]
+    out = [('data', 'g2'), ('data', 'g3'), ('data', 'g3_deadend'), ('data_bulk', 'g2'), ('data_bulk', 'g3_deadend'), ('box_exact_bulk', 'g3'), ('box_exact', 'g3'), ('box_exact', 'g4'), ('matcher', 'g2', 'simple'), ('matcher', 'g3', 'dist'), ('matcher', 'g4', 'simple')]
     if tier == 'thorough':
-        out += [('data', 'g4'), ('matcher', 'g3', 'simple'), ('matcher', 'g4', 'dist'), ('matcher', 'g3_deadend', 'dist')]
+        out += [('data', 'g4'), ('data_bulk', 'g3'), ('data_bulk', 'g4'), ('matcher_bulk', 'g3', 'dist'), ('matcher', 'g3', 'simple'), ('matcher', 'g4', 'dist'), ('matcher', 'g3_deadend', 'dist')]
     return out
 
 
@@ -234,13 +241,13 @@ def main(tier):
     rep = Report(PID, tier)
     shims.selftest_halfnorm()
     rep.validated += sqlcommon.selftest(12 if tier == 'quick' else 60)
-    rep.functions = src_hash(sq.SqliteMap.add_node, sq.SqliteMap.add_edge, sq.SqliteMap.all_edges, sq.SqliteMap.all_nodes, sq.SqliteMap.bb,
+    rep.functions = src_hash(sq.SqliteMap.add_node, sq.SqliteMap.add_edge, sq.SqliteMap.add_nodes, sq.SqliteMap.add_edges, sq.SqliteMap.reindex_edges, sq.SqliteMap.all_edges, sq.SqliteMap.all_nodes, sq.SqliteMap.bb,
                              sq.SqliteMap.nodes_nbrto, sq.SqliteMap.edges_nbrto, sq.SqliteMap.node_coordinates, sq.SqliteMap.edges_closeto,
                              inmem.InMemMap.nodes_nbrto, inmem.InMemMap.edges_nbrto, inmem.InMemMap.all_edges, inmem.InMemMap.all_nodes,
                              inmem.InMemMap.bb, inmem.InMemMap._items_in_bb)
     from symx.common import fit_budget
     budget = fit_budget(len(instances(tier)), tier, 100, 100)
-    res = run_instances(run_instance, [i + ((None,) if i[0] in ('data', 'box_exact') else ()) + (budget,) for i in instances(tier)])
+    res = run_instances(run_instance, [i + ((None,) if i[0].replace('_bulk', '') in ('data', 'box_exact') else ()) + (budget,) for i in instances(tier)])
     rep.bounds = dict(graphs="2-3 (4) integer-labelled nodes, symbolic coordinates, the edge sets g2/g3/g3_deadend(/g4)", box="symbolic box for all_nodes(bb)",
                       matcher="edge states, SimpleMatcher/DistanceMatcher, T=2, unit-square layout with symbolic observations, max_dist_init=None")
     rep.outside = ["rounding except the float32 index contract", "string labels (SqliteMap ids are integers)", "more than 4 nodes", "linked parallel edges (close_edges table)"]
@@ -273,7 +280,7 @@ def replay_file(path):
     d = json.load(open(path))
     cc = {int(k): tuple(v) for k, v in d['coords'].items()}
     sqlcommon.install()
-    bad = concrete_compare(d['graph'], cc, tuple(d['box']) if d.get('box') else None, [tuple(p) for p in d['path']] if d.get('path') else None, d.get('fam'))
+    bad = concrete_compare(d['graph'], cc, tuple(d['box']) if d.get('box') else None, [tuple(p) for p in d['path']] if d.get('path') else None, d.get('fam'), bool(d.get('bulk')))
     sqlcommon.uninstall()
     print(bad or "consistent")
     return 1 if bad else 0
